@@ -2,8 +2,9 @@
 # tools/try_patch.sh <patch.diff> <id>...   apply a seeded change to /repo, run the given checks, undo it.
 set -u
 P=$1; shift
-trap 'git -C /repo reset -q; git -C /repo checkout -- . 2>/dev/null; git -C /repo clean -fdq -- src 2>/dev/null' EXIT PIPE INT TERM
-cd /repo || exit 2
+trap 'git -C $REPO reset -q; git -C $REPO checkout -- . 2>/dev/null; git -C $REPO clean -fdq -- src 2>/dev/null' EXIT PIPE INT TERM
+REPO=${FL_REPO:-/repo}; export FL_REPO=$REPO
+cd $REPO || exit 2
 if ! git diff --quiet; then echo "repo dirty"; exit 2; fi
 if ! git apply "$P"; then echo "patch does not apply"; git reset -q; git checkout -- . ; exit 3; fi
 cd /verif
@@ -11,4 +12,4 @@ for id in "$@"; do
   bin/check "$id" 2>&1 | grep -v "^    witness" | cut -c1-400 | head -${LINES_MAX:-12}
   echo "   -> exit ${PIPESTATUS[0]}"
 done
-git -C /repo reset -q; git -C /repo checkout -- . ; git -C /repo status --short | head -3
+git -C $REPO reset -q; git -C $REPO checkout -- . ; git -C $REPO status --short | head -3
